@@ -465,7 +465,7 @@ func (c *Ctx) mutationRun(i int, hr *HistRun, o *HistOpts, rng *rand.Rand) {
 	}
 	defer rA.Close()
 	// twin: replays the base history, then executes only the originals
-	rB, _, err := openReplica(c, c.Dir(fmt.Sprintf("c03-%d-twin", i)), g.G, SpawnOpt{}, true)
+	rB, _, err := openReplica(c, c.DirI(i, fmt.Sprintf("c03-%d-twin", i)), g.G, SpawnOpt{}, true)
 	if err != nil {
 		c.Err(i, "twin", err)
 		return
